@@ -210,7 +210,42 @@ fn observe(w: &Window<u32>, m: &VecDeque<u32>, full: bool, phase: usize, who: &s
 				let fused = c.next().is_none() && c.next().is_none() && c.size_hint() == (0, Some(0));
 				(a.count(), catch(move || b.last().copied()), rem, fused)
 			};
-			obs += 6;
+			// overridable consuming methods on the concrete types, after k calls of next()
+			macro_rules! advanced {
+				() => {{
+					macro_rules! go {
+						($mk:expr) => {{
+							let d = || {
+								let mut d = $mk;
+								for _ in 0..k {
+									d.next();
+								}
+								d
+							};
+							(d().fold(Vec::new(), |mut v, x| { v.push(*x); v }), d().nth(1).copied(), d().skip(1).map(|x| *x as u64).sum::<u64>(), d().copied().collect::<Vec<u32>>(), d().position(|x| Some(*x) == want_seq.last().copied()), d().max().copied())
+						}};
+					}
+					if rev {
+						go!(w.iter_rev())
+					} else {
+						go!(w.iter())
+					}
+				}};
+			}
+			let (folded, nth1, sum1, collected, pos_last, mx) = advanced!();
+			{
+				let want_rem: Vec<u32> = want_seq.iter().skip(k).copied().collect();
+				let ok = folded == want_rem
+					&& collected == want_rem
+					&& nth1 == want_rem.get(1).copied()
+					&& sum1 == want_rem.iter().skip(1).map(|x| *x as u64).sum::<u64>()
+					&& mx == want_rem.iter().max().copied()
+					&& pos_last == want_rem.iter().position(|x| Some(*x) == want_seq.last().copied());
+				if !ok {
+					return Err(fail(nm, &format!("adaptors/{consumed_class}"), format!("after {k} of {n}: fold {folded:?} collect {collected:?} nth(1) {nth1:?} skip(1).sum {sum1} position(last) {pos_last:?} max {mx:?}; remaining elements are {want_rem:?}")));
+				}
+			}
+			obs += 12;
 			if cnt != rest {
 				return Err(fail(nm, &format!("count/{consumed_class}"), format!("after {k} of {n}: count {cnt}, expected {rest}")));
 			}
